@@ -1,17 +1,10 @@
 #!/bin/bash
-# usage: tools/seedrerun.sh <worktree-name> <seed-dir-name> <pkg> [<extra file to move aside>]
-# Re-runs one package of the existing suite alone in the scratch worktree (demo moved aside) and annotates confirm.log.
-wt=/tmp/seed/$1; out=/verif/seeded/$2; log=$out/confirm.log; pkg=$3
+# usage: tools/seedrerun.sh <worktree-name> <seed-dir-name> <pkg>
+# Re-runs one package of the existing suite alone in the scratch worktree (demo moved aside); annotate with seedannotate.sh.
+wt=/tmp/seed/$1; out=/verif/seeded/$2; pkg=$3
 cd $wt || exit 2
 demos=$(cd $out/demo && find . -name '*_test.go' | sed 's|^\./||')
 mkdir -p /tmp/seed/.aside/$1; for d in $demos; do [ -f $d ] && mv $d /tmp/seed/.aside/$1/$(echo $d | tr / _); done
-[ -n "$4" ] && [ -f "$4" ] && mv $4 /tmp/seed/.aside/$1/extra_$(basename $4)
-go test -vet=off -count=1 -timeout 25m $pkg > $out/rerun_$(echo $pkg | tr -d './').log 2>&1; rc=$?
+go test -vet=off -count=1 -timeout 25m $pkg > $out/rerun_$(echo $pkg | tr -d './').log 2>&1
 for d in $demos; do [ -f /tmp/seed/.aside/$1/$(echo $d | tr / _) ] && mv /tmp/seed/.aside/$1/$(echo $d | tr / _) $d; done
-if [ $rc -eq 0 ]; then
-  echo "rerun of the one failing package alone (change applied, demo moved aside${4:+, $4 (the agent's own reproduction of the original defect, not part of the existing suite) moved aside}): go test $pkg -> ok" >> $log
-  echo "CONFIRMED (after rerun)" >> $log
-else
-  echo "rerun of $pkg alone: rc=$rc" >> $log; grep -a '^--- FAIL' $out/rerun_*.log >> $log; echo "STILL NOT CONFIRMED" >> $log
-fi
-tail -2 $log
+tail -3 $out/rerun_$(echo $pkg | tr -d './').log
